@@ -237,8 +237,7 @@ def float_table(cells) -> str:
         elif math.isinf(f):
             ent.append(f"{cps(k)}:I")
         else:
-            kind = "U" if 0 < abs(f) < TINY else "F"
-            ent.append(f"{cps(k)}:{kind}:{cps(repr(f + 0.0))}")
+            ent.append(f"{cps(k)}:F:{cps(repr(f + 0.0))}")
     return ";".join(ent)
 
 
@@ -524,7 +523,7 @@ def run(ctx: Ctx) -> int:
         "Section variables of Model/Csv.v: pyfloat = Python's float(str) (None = ValueError), sig15 = sigfig.round(x, sigfigs=15), "
         "stored = the NumberCell value after Document.save/Document(path) (C01's subject), frepr = repr(float) as csv.writer prints it; "
         "hypotheses of number_equal: repr_roundtrip (float(repr(x)) = x), sig15_id and stored_exact on values of at most 15 significant digits",
-        "in the correspondence runs the model's pyfloat is a per-line table computed by Python's float() (finite / below 1e-307 / inf / nan / ValueError) "
+        "in the correspondence runs the model's pyfloat is a per-line table computed by Python's float() (finite / inf / nan / ValueError) "
         "carrying repr(x + 0.0) as the expected exported text",
         "CPython's csv module: the model carries its own excel-dialect writer and reader (csv_quote_roundtrip is proved of those); they are tied to "
         "CPython's by the csv-writer / csv-reader streams; CPython's own round trip is checked on every generated row list",
